@@ -198,9 +198,11 @@ def plain_reference(case):
         else:
             run.step(op)
             glob += [(y, v) for _, y, v in run.problem.log[start:]]
+    plain_reference.notices = run.stdout().count("Exception was thrown")
     return glob, loc, summary(run.results())
 
 
+plain_reference.notices = 0
 PAINTER_MODES_FRAGILE = ("interpolation", "approximation")
 
 
@@ -295,10 +297,9 @@ def body(case):
                 escaped = True
             else:
                 escaped = False
-            if swallowed:
+            for e in list(swallowed):
                 # an exception left a shipped listener's callback: either it came out of the call, or Solve caught it
                 # (it catches whatever a callback raises and goes on)
-                e = swallowed[0]
                 who, where = exception_origin(e)
                 fragile = any(s.get("mode") in PAINTER_MODES_FRAGILE or s.get("calc") in PAINTER_MODES_FRAGILE
                               for s in case["shipped"])
@@ -315,7 +316,7 @@ def body(case):
                     # the painter's own fit failed inside its callback and Solve went on: everything else - what the
                     # other listeners are told, the trial sequence, the result - is still checked
                     crashed.append(type(e).__name__)
-                    del swallowed[:]
+                    swallowed.remove(e)
                 else:
                     fail("%s raised while listeners were attached (%r): %s at %s: %s" %
                          (type(e).__name__, op, who, where, str(e)[:160]))
@@ -404,6 +405,13 @@ def body(case):
                  "different points)" % (len(locals_), len(ref_loc)))
         if summary(run.results()) != ref_sum:
             fail("with listeners attached the result is %r, without listeners %r" % (summary(run.results()), ref_sum))
+        # ---- nothing that Solve had to contain: Solve prints a notice for every exception it swallows; with listeners
+        # attached there must be as many as without (plus one per painter fit failure that was recorded above)
+        notices = run.stdout().count("Exception was thrown")
+        if notices != plain_reference.notices + len(crashed):
+            fail("with listeners attached Solve swallowed %d exception(s) (its notice 'Exception was thrown'), without "
+                 "listeners %d, and %d painter fit failure(s) were recorded: a callback of an attached listener raised" %
+                 (notices, plain_reference.notices, len(crashed)))
         # ---- console final report
         for spec in case["shipped"]:
             if spec["kind"] == "console" and nsolve:
